@@ -271,10 +271,12 @@ pub fn uninstall() {
 ////////////////////////////////////////////////////////////////////////////////
 // Panic capture
 
-thread_local! {
-    static QUIET: Cell<bool> = const { Cell::new(false) };
-    static LAST_PANIC: RefCell<Option<String>> = const { RefCell::new(None) };
-}
+// Process-wide (each worker process runs one simulation at a time, and the
+// preemptive executor's segment threads must be covered too)
+static QUIET: std::sync::atomic::AtomicUsize =
+    std::sync::atomic::AtomicUsize::new(0);
+static LAST_PANIC: std::sync::Mutex<Option<String>> =
+    std::sync::Mutex::new(None);
 
 pub fn init_panic_hook() {
     let default = std::panic::take_hook();
@@ -291,8 +293,13 @@ pub fn init_panic_hook() {
             .map(|l| format!("{}:{}", l.file(), l.line()))
             .unwrap_or_default();
         let full = format!("{msg} @ {loc}");
-        if QUIET.with(|q| q.get()) {
-            LAST_PANIC.with(|p| *p.borrow_mut() = Some(full));
+        if QUIET.load(std::sync::atomic::Ordering::SeqCst) > 0 {
+            // keep the first (innermost) panic: re-raised panics of the
+            // executor carry less information
+            let mut p = LAST_PANIC.lock().unwrap_or_else(|e| e.into_inner());
+            if p.is_none() {
+                *p = Some(full);
+            }
         } else {
             default(info);
         }
@@ -301,12 +308,17 @@ pub fn init_panic_hook() {
 
 /// Runs `f`, converting a panic into `Err(message @ location)`
 pub fn catch<R>(f: impl FnOnce() -> R) -> Result<R, String> {
-    let prev = QUIET.with(|q| q.replace(true));
+    QUIET.fetch_add(1, std::sync::atomic::Ordering::SeqCst);
+    if let Ok(mut p) = LAST_PANIC.lock() {
+        *p = None;
+    }
     let r = std::panic::catch_unwind(std::panic::AssertUnwindSafe(f));
-    QUIET.with(|q| q.set(prev));
+    QUIET.fetch_sub(1, std::sync::atomic::Ordering::SeqCst);
     r.map_err(|_| {
         LAST_PANIC
-            .with(|p| p.borrow_mut().take())
+            .lock()
+            .unwrap_or_else(|e| e.into_inner())
+            .take()
             .unwrap_or_else(|| "<panic>".to_string())
     })
 }
